@@ -527,6 +527,7 @@ func mapTypesToDynamoLocalSecondaryIndex(input types.LocalSecondaryIndexDescript
 		IndexName:  input.IndexName,
 		KeySchema:  mapTypesToDynamoKeySchemaElements(input.KeySchema),
 		Projection: mapTypesToDynamoProjection(input.Projection),
+		ItemCount:  aws.Int64(input.ItemCount),
 	}
 }
 
